@@ -221,6 +221,10 @@ func (tb *termBuilder) build(v ssa.Value) *Term {
 	case *ssa.Call:
 		return tb.callTerm(&x.Call, x)
 	case *ssa.Extract:
+		// v, ok := m[k]: v is the plain lookup
+		if lk, isLk := x.Tuple.(*ssa.Lookup); isLk && lk.CommaOk && x.Index == 0 {
+			return &Term{Op: "lookup", Args: []*Term{tb.term(lk.X), tb.term(lk.Index)}}
+		}
 		tup := tb.term(x.Tuple)
 		// range iteration: extract of next
 		if nx, ok := x.Tuple.(*ssa.Next); ok {
@@ -268,6 +272,14 @@ func (tb *termBuilder) build(v ssa.Value) *Term {
 	case *ssa.Index:
 		return &Term{Op: "index", Args: []*Term{tb.term(x.X), tb.term(x.Index)}}
 	case *ssa.Lookup:
+		// `for k := range m { v := m[k]` is `for k, v := range m` (the map is not written in this function)
+		if ex, ok := x.Index.(*ssa.Extract); ok && ex.Index == 1 && !x.CommaOk {
+			if nx, ok := ex.Tuple.(*ssa.Next); ok {
+				if rg, ok := nx.Iter.(*ssa.Range); ok && rg.X == x.X && !mapWrittenIn(x.Parent(), x.X) {
+					return &Term{Op: "rangeval", Args: []*Term{tb.term(rg.X)}}
+				}
+			}
+		}
 		return &Term{Op: "lookup", Args: []*Term{tb.term(x.X), tb.term(x.Index)}}
 	case *ssa.Slice:
 		t := &Term{Op: "slice", Args: []*Term{tb.term(x.X)}}
@@ -358,6 +370,16 @@ func (tb *termBuilder) loadTerm(x *ssa.UnOp) *Term {
 // CalleeNames returns the names a call site may be referred to by: the static
 // callee, or "(iface).Method" plus every callee the VTA call graph resolves.
 func (p *Prog) CalleeNames(site ssa.CallInstruction) []string {
+	names := p.calleeNames0(site)
+	if len(p.fwdAlias) > 0 {
+		for _, n := range names {
+			names = append(names, p.fwdAlias[n]...)
+		}
+	}
+	return names
+}
+
+func (p *Prog) calleeNames0(site ssa.CallInstruction) []string {
 	c := site.Common()
 	if c.IsInvoke() {
 		names := []string{"(" + typeShort(c.Value.Type()) + ")." + c.Method.Name()}
@@ -423,6 +445,11 @@ func (tb *termBuilder) callTerm(c *ssa.CallCommon, in ssa.CallInstruction) *Term
 	}
 	for _, a := range c.Args {
 		t.Args = append(t.Args, tb.term(a))
+	}
+	// time.Now().Sub(x) is the definition of time.Since(x): one spelling for both
+	if names[0] == "(time.Time).Sub" && len(t.Args) == 2 && t.Args[0].Op == "call" && t.Args[0].Name == "time.Now" {
+		t.Name = "time.Since"
+		t.Args = t.Args[1:]
 	}
 	return t
 }
@@ -531,7 +558,7 @@ func (p *Prog) IsCall(t *Term, names ...string) bool {
 	}
 	var have []string
 	if site != nil {
-		have = p.CalleeNames(site)
+		have = append(p.CalleeNames(site), t.Name)
 	} else {
 		have = []string{t.Name}
 	}
@@ -606,3 +633,24 @@ func (t *Term) IsField(name string) bool {
 }
 
 func (t *Term) IsConst(val string) bool { return t != nil && t.Op == "const" && t.Name == val }
+
+func mapWrittenIn(fn *ssa.Function, m ssa.Value) bool {
+	if fn == nil {
+		return true
+	}
+	for _, b := range fn.Blocks {
+		for _, in := range b.Instrs {
+			switch x := in.(type) {
+			case *ssa.MapUpdate:
+				if x.Map == m {
+					return true
+				}
+			case *ssa.Call:
+				if bi, ok := x.Call.Value.(*ssa.Builtin); ok && (bi.Name() == "delete" || bi.Name() == "clear") && len(x.Call.Args) > 0 && x.Call.Args[0] == m {
+					return true
+				}
+			}
+		}
+	}
+	return false
+}
